@@ -1738,9 +1738,10 @@ client_connect(void)
 
 typedef struct {
 	char method[16];
-	char uri[128];
+	char uri[1600];
 	int  nh;
-	char hn[4][32], hv[4][64];
+	char hn[16][32], hv[16][600];
+	long sweep_pred; // > 0: request head aimed at the size of nng's fixed buffer; predicted length without the unknown extras
 	bb   body;
 	bb   resp;   // wire bytes of the response
 	bb   expect; // canonical decode (empty if not modelled)
@@ -1750,6 +1751,9 @@ typedef struct {
 	bool big;    // response head of 8-20 KB made of short lines
 	char desc[96];
 } ctxn;
+
+static long sweep_n, sweep_extra;
+static bool sweep_extra_known;
 
 static void
 gen_txn(vf_rng *r, ctxn *t)
@@ -1767,6 +1771,37 @@ gen_txn(vf_rng *r, ctxn *t)
 	for (int i = 0; i < t->nh; i++) {
 		snprintf(t->hn[i], sizeof(t->hn[i]), "X-Req-%d", i);
 		snprintf(t->hv[i], sizeof(t->hv[i]), "val%u", vf_below(r, 100000));
+	}
+	if (vf_chance(r, 1, 10)) {
+		// the head nng has to EMIT is aimed at the size of its fixed buffer
+		// (8160 bytes): every length from 30 below to 30 above, in turn.  What
+		// nng adds on its own (Host, ...) is learnt from the first such request.
+		// (the buffer size itself first - twice, the first one teaches the
+		// extras - then alternately below and above it)
+		long k      = sweep_n++ % 62;
+		long target = 8160 + (k < 2 ? 0 : (k / 2) * ((k & 1) ? 1 : -1));
+		snprintf(t->method, sizeof(t->method), "GET");
+		t->head = false;
+		size_t ul = 1400;
+		memcpy(t->uri, "/sweep/", 7);
+		memset(t->uri + 7, 'u', ul);
+		t->uri[7 + ul] = 0;
+		t->nh = 12;
+		long pred = 4 + (long) strlen(t->uri) + 11 + 2; // request line, final CRLF
+		for (int i = 0; i < 11; i++) {
+			snprintf(t->hn[i], sizeof(t->hn[i]), "X-Pad-%02d", i);
+			memset(t->hv[i], 'p', 560);
+			t->hv[i][560] = 0;
+			pred += 8 + 2 + 560 + 2;
+		}
+		long extra = sweep_extra_known ? sweep_extra : 23;
+		long v     = target - pred - extra - (6 + 2 + 2);
+		if (v < 1) v = 1;
+		if (v > 590) v = 590;
+		snprintf(t->hn[11], sizeof(t->hn[11]), "X-Tune");
+		memset(t->hv[11], 't', (size_t) v);
+		t->hv[11][v] = 0;
+		t->sweep_pred = pred + 6 + 2 + v + 2;
 	}
 	if (!strcmp(t->method, "POST") || !strcmp(t->method, "PUT")) {
 		size_t bl = vf_chance(r, 1, 8) ? vf_range(r, 8000, 20000) : vf_below(r, 200);
@@ -1969,6 +2004,15 @@ client_read_request(ctxn *t, const char *plan)
 					cp.pos = cp.in.n;
 				}
 				vf_stat("http_client_requests_parsed", 1);
+				if (t->sweep_pred > 0) {
+					sweep_extra       = (long) m.head_len - t->sweep_pred; // what nng added on its own
+					sweep_extra_known = true;
+					if (m.head_len >= 8130 && m.head_len <= 8190) {
+						vf_stat("http_emitted_request_heads_around_buffer_size", 1);
+						vf_class("emit-head/request/%zu", m.head_len);
+					}
+					if (m.head_len == 8160) vf_stat("http_emitted_request_heads_of_exactly_buffer_size", 1);
+				}
 				return ok;
 			}
 		}
